@@ -3288,6 +3288,16 @@ class SEVM:
                             cond = dst.as_z3() == target
                             new_ex = self.create_branch(ex, cond, target)
                             stack.push(new_ex)
+
+                        # the inputs for which dst is none of the valid destinations halt here: they get their own
+                        # branch, which re-executes this JUMP with dst known to differ from each of them
+                        invalid_conds = [dst.as_z3() != target for target in reachable_targets]
+                        if ex.check(And(*invalid_conds)) != unsat:
+                            new_ex = self.create_branch(ex, invalid_conds[0], ex.pc)
+                            # (kept as separate conditions, which are added when the branch is activated)
+                            new_ex.path.pending.extend(invalid_conds[1:])
+                            new_ex.st.push(dst)
+                            stack.push(new_ex)
                     else:
                         raise NotConcreteError(f"symbolic JUMP target: {dst}")
 
